@@ -565,7 +565,8 @@ def _run_property(pid, tier, seed):
         for e in acc.errors[:2]:
             print(json.dumps(e["case"], default=str)[:600])
             print(e["error"][-2500:])
-        return 2
+        if not new:
+            return 2
     if new:
         return 1
     if acc.evaluations == 0:
